@@ -242,7 +242,7 @@ func TestPeerID(t *testing.T) {
 		if embedded {
 			emb = "inlined"
 		}
-		stats.Case(name, fp(k.tag, o.tag, fmt.Sprint(addrs)), differs, k.typ, emb)
+		stats.Case(name, fp(k.tag, o.tag, fmt.Sprint(addrs)), differs, k.typ, classLabel(k.cls), emb)
 		if stats.WantSample(name) {
 			stats.Sample(name, map[string]any{"key": k.tag, "id": id.String(), "cid": peer.ToCid(id).String(), "other": o.tag})
 		}
